@@ -52,6 +52,23 @@ func Disarm() { atomic.StoreInt64(&watchdogArmed, 0) }
 // Bubble runs f inside a synctest bubble (fake clock starting at
 // 2000-01-01T00:00:00Z, time advancing only at quiescence).
 func Bubble(t *testing.T, f func()) (out BubbleOutcome) {
+	if RaceEnabled() {
+		// synctest.Test ends with t.FailNow() - runtime.Goexit - when the race
+		// detector reported something during the bubble; the report is this
+		// worker's finding (RaceVerdict reads it from the log), so only the
+		// goroutine that ran the bubble may end with it, not the worker
+		done := make(chan struct{})
+		go func() {
+			defer close(done)
+			out = bubble(t, f)
+		}()
+		<-done
+		return
+	}
+	return bubble(t, f)
+}
+
+func bubble(t *testing.T, f func()) (out BubbleOutcome) {
 	defer func() {
 		if r := recover(); r != nil {
 			msg := fmt.Sprint(r)
